@@ -7,9 +7,13 @@ import (
 	"fmt"
 	"math/rand"
 	"os"
+	"sort"
 	"strings"
 	"sync"
 	"time"
+
+	"github.com/ngicks/gokugen/cron"
+	"github.com/ngicks/gokugen/mutator"
 
 	"github.com/ngicks/gokugen/def"
 	"github.com/ngicks/gokugen/dispatcher/workerpool"
@@ -36,7 +40,7 @@ type callGrant struct {
 }
 
 type sproxy struct {
-	inner  def.ObservableRepository
+	inner  scheduler.Repository
 	faulty *faultyRepo
 	calls  chan *callReq
 	fireCh chan time.Time // the scheduler's view of the timer channel: the harness forwards fires explicitly
@@ -61,9 +65,13 @@ func (p *sproxy) LastTimerUpdateError() error {
 }
 func (p *sproxy) StartTimer(ctx context.Context) {
 	r, g := p.gate("start", "CStart")
-	p.faulty.failNext = g.hfault
+	if p.faulty != nil {
+		p.faulty.failNext = g.hfault
+	}
 	p.inner.StartTimer(ctx)
-	p.faulty.failNext = false
+	if p.faulty != nil {
+		p.faulty.failNext = false
+	}
 	r.done <- "RUnit"
 }
 func (p *sproxy) StopTimer() {
@@ -120,9 +128,13 @@ func (p *sproxy) MarkAsDispatched(ctx context.Context, id string) error {
 		r.done <- "(RRes (RErr EOther))"
 		return errFault
 	}
-	p.faulty.failNext = g.hfault
+	if p.faulty != nil {
+		p.faulty.failNext = g.hfault
+	}
 	err := p.inner.MarkAsDispatched(ctx, id)
-	p.faulty.failNext = false
+	if p.faulty != nil {
+		p.faulty.failNext = false
+	}
 	if g.fault == 2 {
 		r.done <- "(RRes (RErr EOther))"
 		return errFault
@@ -157,7 +169,7 @@ type workStart struct {
 }
 type startReq struct {
 	id    string
-	grant chan struct{}
+	grant chan string
 }
 
 type sysRun struct {
@@ -193,6 +205,13 @@ type sysRun struct {
 	faults    bool
 	faultsOn  bool
 	failed    string
+
+	// second configuration: Scheduler over NewVolatileTaskRepo(CronStore)
+	vmode bool
+	scrib bool
+	ended bool
+	cg    *cronGen
+	timerCh func() <-chan time.Time
 }
 
 type stepOutcome struct {
@@ -202,6 +221,23 @@ type stepOutcome struct {
 }
 
 func (s *sysRun) log(l string) {
+	if s.vmode {
+		// the volatile configuration has its own label type (no fault fields)
+		switch {
+		case strings.HasPrefix(l, "LCall "):
+			// LCall <term> <fault> <hf> <ret>
+			rest := strings.TrimPrefix(l, "LCall ")
+			for _, f := range []string{" FNone false ", " FNone true "} {
+				if i := strings.Index(rest, f); i >= 0 {
+					rest = rest[:i] + " " + rest[i+len(f):]
+					break
+				}
+			}
+			l = "VCall " + rest
+		case strings.HasPrefix(l, "L"):
+			l = "V" + l[1:]
+		}
+	}
 	s.labels = append(s.labels, l)
 	if os.Getenv("GKH_DEBUG") != "" {
 		if len(l) > 160 {
@@ -298,10 +334,24 @@ func (s *sysRun) workFn(kind string) *def.WorkFn {
 	var fn def.WorkFn = func(ctx context.Context, p map[string]string) error {
 		id := p["id"]
 		// the work function starts when the harness lets it: a worker may be arbitrarily slow to get going
-		sg := make(chan struct{})
+		sg := make(chan string, 1)
 		s.startReqs <- startReq{id: id, grant: sg}
-		<-sg
-		snap, _ := s.core.GetById(context.Background(), id)
+		if got := <-sg; s.vmode {
+			// ids are the store's uuids: the harness knows which dispatch this worker belongs to
+			id = got
+		}
+		var snap def.Task
+		if s.vmode {
+			// C19: the work function (and any caller of GetById) may keep and change the maps it was handed
+			if s.scrib {
+				first, _ := s.proxy.inner.GetById(context.Background(), id)
+				scribbleTask(first)
+				scribbleMap(p)
+			}
+			snap, _ = s.proxy.inner.GetById(context.Background(), id)
+		} else {
+			snap, _ = s.core.GetById(context.Background(), id)
+		}
 		s.mu.Lock()
 		g := make(chan struct{})
 		s.gates[id] = g
@@ -321,7 +371,7 @@ func (s *sysRun) workFn(kind string) *def.WorkFn {
 			// the work function's own time-out: an ordinary error as far as the scheduler is concerned
 			return context.DeadlineExceeded
 		case "panic":
-			if len(id)%2 == 0 {
+			if (!s.vmode && len(id)%2 == 0) || (s.vmode && id[len(id)-1]%2 == 0) {
 				panic(panicString("boom")) // a panic value that is neither string nor error
 			}
 			panic("boom")
@@ -351,8 +401,79 @@ func newSysRun(r *rand.Rand, stats map[string]int, faults bool) *sysRun {
 	s.disp.WorkerPool.Add(16)
 	s.sched = scheduler.NewScheduler(s.proxy, s.disp)
 	s.sched.VerifSetClock(s.clock)
+	s.timerCh = s.obs.TimerChannel
 	go s.sched.RunQueue(context.Background())
 	return s
+}
+
+// newVSysRun: the cron / volatile configuration. Entries come from the cron generator; user operations are
+// cron edits; ids are the store's own uuids.
+func newVSysRun(r *rand.Rand, stats map[string]int, scrib bool) *sysRun {
+	start := cq.Epoch.Add(time.Duration(r.Intn(86400)) * time.Second)
+	s := &sysRun{r: r, stats: stats, now: start, gates: map[string]chan struct{}{}, workOf: map[string]string{},
+		starts: make(chan workStart, 16), startReqs: make(chan startReq, 64), running: map[string]bool{}, accepted: map[string]bool{},
+		stepDone: make(chan stepOutcome, 1), stepCancel: map[string]context.CancelFunc{}, vmode: true, scrib: scrib}
+	s.clock = vclock.New(start)
+	mutator.VerifSetClock(s.clock)
+	s.cg = &cronGen{r: r, clock: s.clock, now: start, eidOf: map[*cron.Entry]int{}, mode: "vsys", stats: stats, scrib: scrib}
+	s.cg.workIds = []string{"ok", "ok", "err", "panic", "nope", "dl"}
+	ninit := 1 + r.Intn(3)
+	var initial []int
+	for i := 0; i < ninit; i++ {
+		initial = append(initial, s.cg.newEntry(-1))
+	}
+	ents := make([]*cron.Entry, len(initial))
+	for i, e := range initial {
+		ents[i] = s.cg.pool[e]
+	}
+	store, err := cron.VerifNewCronStore(ents, s.clock)
+	s.labels = append(s.labels, "VNew "+cq.Time(start)+" ROWS "+natList(initial)+" "+cq.Bool(err == nil))
+	if err != nil {
+		// the store refused its initial entries (agreed with the model by VNew's result): nothing to drive
+		s.ended = true
+		return s
+	}
+	s.cg.store = store
+	vrepo := scheduler.NewVolatileTaskRepo(store)
+	s.proxy = &sproxy{inner: vrepo, calls: make(chan *callReq), fireCh: make(chan time.Time)}
+	reg := mapRegistry{"ok": s.workFn("ok"), "err": s.workFn("err"), "panic": s.workFn("panic"), "block": s.workFn("block"), "dl": s.workFn("dl")}
+	s.disp = workerpool.NewWorkerPoolDispatcher(reg)
+	s.disp.WorkerPool.Add(16)
+	s.sched = scheduler.NewScheduler(s.proxy, s.disp)
+	s.sched.VerifSetClock(s.clock)
+	s.timerCh = store.TimerChannel
+	go s.sched.RunQueue(context.Background())
+	return s
+}
+
+// cron edit as the user's mutation in the volatile configuration
+func (s *sysRun) cronEdit() {
+	g := s.cg
+	g.now = s.now
+	var removed, added []int
+	err := g.store.EditTask(func(entries []*cron.Entry) []*cron.Entry {
+		cur := make([]int, 0, len(entries))
+		for _, e := range entries {
+			cur = append(cur, g.eidOf[e])
+		}
+		sort.Ints(cur)
+		var keep []*cron.Entry
+		for _, eid := range cur {
+			if s.r.Intn(4) == 0 && len(cur) > 1 {
+				removed = append(removed, eid)
+			} else {
+				keep = append(keep, g.pool[eid])
+			}
+		}
+		if s.r.Intn(2) == 0 {
+			eid := g.newEntry(-1)
+			added = append(added, eid)
+			keep = append(keep, g.pool[eid])
+		}
+		return keep
+	})
+	s.stats["user:cron-edit"]++
+	s.log("LEdit " + cq.Time(s.now) + " " + natList(removed) + " " + natList(added) + " " + cq.Bool(err == nil))
 }
 
 func (s *sysRun) fail(msg string) {
@@ -363,6 +484,10 @@ func (s *sysRun) fail(msg string) {
 
 // ---- user side
 func (s *sysRun) userOp() {
+	if s.vmode {
+		s.cronEdit()
+		return
+	}
 	ctx := context.Background()
 	nowT := cq.Time(s.now)
 	switch x := s.r.Intn(10); {
@@ -406,6 +531,23 @@ func (s *sysRun) userOp() {
 }
 
 func (s *sysRun) advance(far bool) {
+	if s.vmode {
+		if far {
+			// cron rows never run dry: quiescence here means "nothing due is left waiting", so time only moves
+			// to the next pending occurrence
+			if t, ok := s.cg.store.NextScheduled(); ok && t.After(s.now) {
+				s.now = t
+			}
+		} else if t, ok := s.cg.store.NextScheduled(); ok && t.After(s.now) && s.r.Intn(3) != 0 {
+			s.now = t
+		} else {
+			// short hops: every occurrence missed meanwhile has to be caught up with, one Step cycle each
+			s.now = s.now.Add(time.Duration(1+s.r.Intn(90)) * time.Second)
+		}
+		s.clock.Set(s.now)
+		s.log("LAdvance " + cq.Time(s.now))
+		return
+	}
 	if far {
 		s.now = s.now.Add(10 * time.Minute)
 	} else if t, err := s.core.GetNext(context.Background()); err == nil && t.ScheduledAt.After(s.now) && s.r.Intn(3) != 0 {
@@ -503,6 +645,11 @@ func (s *sysRun) progress() {
 		if id, ok := dispatchedId(out.st); ok {
 			s.stepCancel[id] = s.curCancel
 			s.accepted[id] = true
+			if s.vmode {
+				if t, err := s.proxy.inner.GetById(context.Background(), id); err == nil {
+					s.workOf[id] = t.WorkId
+				}
+			}
 			if s.workOf[id] == "nope" {
 				s.waitReserved(s.outstanding() - 1)
 				delete(s.accepted, id)
@@ -512,6 +659,9 @@ func (s *sysRun) progress() {
 				// the worker reaches the work function's entry and waits there for the harness
 				select {
 				case rq := <-s.startReqs:
+					if s.vmode {
+						rq.id = id
+					}
 					s.pendStart = append(s.pendStart, rq)
 				case <-time.After(waitLong):
 					s.fail("work function of " + id + " was not entered")
@@ -542,7 +692,7 @@ func (s *sysRun) grantStart() bool {
 	k := s.r.Intn(len(s.pendStart))
 	rq := s.pendStart[k]
 	s.pendStart = append(s.pendStart[:k], s.pendStart[k+1:]...)
-	close(rq.grant)
+	rq.grant <- rq.id
 	select {
 	case ws := <-s.starts:
 		delete(s.accepted, ws.id)
@@ -608,7 +758,7 @@ func (s *sysRun) deliverFire() bool {
 		return false
 	}
 	select {
-	case v := <-s.obs.TimerChannel():
+	case v := <-s.timerCh():
 		select {
 		case s.proxy.fireCh <- v:
 			s.inSelect = false
@@ -626,11 +776,16 @@ func (s *sysRun) deliverFire() bool {
 
 func (s *sysRun) run(length int) {
 	// the application starts the repository's timer before it drives the scheduler
-	if s.r.Intn(4) == 0 {
-		s.userOp()
+	if s.vmode {
+		s.cg.store.StartTimer(context.Background())
+		s.log("LStartTimer " + cq.Time(s.now))
+	} else {
+		if s.r.Intn(4) == 0 {
+			s.userOp()
+		}
+		s.obs.StartTimer(context.Background())
+		s.log("LUser (HStart false " + cq.Time(s.now) + ") ROk")
 	}
-	s.obs.StartTimer(context.Background())
-	s.log("LUser (HStart false " + cq.Time(s.now) + ") ROk")
 	for i := 0; i < length && s.failed == ""; i++ {
 		if s.canProceed() {
 			// the scheduler is runnable: either let it run or (sometimes) let somebody else go first
@@ -672,7 +827,11 @@ func (s *sysRun) run(length int) {
 	// (retrying error states) until it blocks with nothing pending
 	s.faultsOn = false
 	s.advance(true)
-	for k := 0; k < 400 && s.failed == ""; k++ {
+	budget := 400
+	if s.vmode {
+		budget = 4000
+	}
+	for k := 0; k < budget && s.failed == ""; k++ {
 		if s.canProceed() {
 			s.progress()
 			continue
@@ -697,7 +856,12 @@ func (s *sysRun) run(length int) {
 		s.stats["driver:no-quiescence"]++
 	}
 	// final dump
-	ts, _ := s.core.Find(context.Background(), def.TaskQueryParam{}, 0, -1)
+	var ts []def.Task
+	if s.vmode {
+		ts = s.cg.store.Schedule()
+	} else {
+		ts, _ = s.core.Find(context.Background(), def.TaskQueryParam{}, 0, -1)
+	}
 	s.log("LDump " + cq.Tasks(ts) + " " + cq.Time(s.now) + " " + cq.Bool(s.stepActive && s.inSelect))
 	// release the blocked Step
 	if s.stepActive {
@@ -717,6 +881,8 @@ func sysMain(args []string) {
 	n := fs.Int("n", 20, "number of schedules")
 	length := fs.Int("len", 60, "harness decisions per schedule (before the quiescence phase)")
 	faults := fs.Bool("faults", false, "inject transient faults into scheduler-issued calls (C20)")
+	scribble := fs.Bool("scribble", false, "volatile configuration: callers overwrite every map they passed in or got back (C19)")
+	volatile := fs.Bool("volatile", false, "second configuration: Scheduler over NewVolatileTaskRepo(CronStore)")
 	out := fs.String("out", "", "output .v")
 	statsOut := fs.String("stats", "", "stats json")
 	_ = fs.Parse(args)
@@ -724,13 +890,24 @@ func sysMain(args []string) {
 	stats := map[string]int{}
 	var hashes, samples, cases []string
 	for k := 0; k < *n; k++ {
-		s := newSysRun(r, stats, *faults)
-		s.run(*length)
+		var s *sysRun
+		if *volatile {
+			s = newVSysRun(r, stats, *scribble)
+		} else {
+			s = newSysRun(r, stats, *faults)
+		}
+		if s.failed == "" && !s.ended {
+			s.run(*length)
+		}
 		if s.failed != "" {
 			stats["harness:failed:"+s.failed]++
 			s.log("LHarnessFailure " + cq.Str(s.failed))
 		}
 		c := " [" + strings.Join(s.labels, ";\n  ") + "]"
+		if *volatile {
+			s.labels[0] = strings.Replace(s.labels[0], "ROWS", "["+strings.Join(s.cg.rows, ";\n    ")+"]", 1)
+			c = " (mkVC [" + strings.Join(s.cg.tbl, ";") + "]\n  [" + strings.Join(s.labels, ";\n  ") + "])"
+		}
 		cases = append(cases, c)
 		hashes = append(hashes, shortHash(c))
 		if k == 0 {
@@ -742,8 +919,13 @@ func sysMain(args []string) {
 		}
 	}
 	var b strings.Builder
-	b.WriteString("From GK Require Import SysCheck.\nOpen Scope string_scope.\nOpen Scope list_scope.\nOpen Scope Z_scope.\n")
-	b.WriteString("Definition cases : list (list slabel) := [\n" + strings.Join(cases, ";\n") + "\n].\n")
+	if *volatile {
+		b.WriteString("From GK Require Import VSys SysCheck.\nOpen Scope string_scope.\nOpen Scope list_scope.\nOpen Scope Z_scope.\n")
+		b.WriteString("Definition cases : list vcase := [\n" + strings.Join(cases, ";\n") + "\n].\n")
+	} else {
+		b.WriteString("From GK Require Import SysCheck.\nOpen Scope string_scope.\nOpen Scope list_scope.\nOpen Scope Z_scope.\n")
+		b.WriteString("Definition cases : list (list slabel) := [\n" + strings.Join(cases, ";\n") + "\n].\n")
+	}
 	if err := os.WriteFile(*out, []byte(b.String()), 0o644); err != nil {
 		panic(err)
 	}
